@@ -1326,4 +1326,66 @@ theorem reachG_steps {p : Prog} : ∀ (is : List Nat) {c : Cfg} {gh : Ghost}, Re
   | nil => intro c gh h; exact h
   | cons i is ih => intro c gh h; exact ih (ReachG.step i h)
 
+/-! ## any number of micro-steps of younger goroutines -/
+
+/-- every micro-step of the schedule is taken by a goroutine younger than `b` -/
+def YoungerOnly (b : Gid) : List Nat → Cfg → Prop
+  | [], _ => True
+  | i :: is, c => (∀ g, c.gs[i]? = some g → b < g.gid) ∧ YoungerOnly b is (c.step i)
+
+theorem ctxOf_step {c : Cfg} (hc : CInv c) {i : Nat} {b : Gid} {j : CtxId} (hj : CtxOf c b j)
+    (hy : ∀ g, c.gs[i]? = some g → b < g.gid) : CtxOf (c.step i) b j := by
+  cases hi : c.gs[i]? with
+  | none => have : c.step i = c := by simp [Cfg.step, hi]
+            rw [this]; exact hj
+  | some g =>
+    have hgm := mem_of_getElem? hi
+    have sp := stepG_spec hc.winv hc.nopend (hc.gok g hgm)
+    have e : c.step i = { w := (stepG g c.w).w, gs := c.gs.set i (stepG g c.w).g ++ (stepG g c.w).spawned.toList } := by
+      simp [Cfg.step, hi]
+    rcases hj with hj | ⟨m, hm, hms, hmg, hmc⟩
+    · left; rw [e]; exact sp.estMono _ hj
+    · right
+      obtain ⟨k, hk⟩ := List.mem_iff_getElem?.1 hm
+      have hki : k ≠ i := by
+        intro h; subst h
+        rw [hi] at hk
+        have := Option.some.inj hk
+        have hlt := hy g hi
+        rw [this, hmg] at hlt
+        exact Nat.lt_irrefl _ hlt
+      refine ⟨m, ?_, hms, hmg, hmc⟩
+      rw [e]
+      exact List.mem_append_left _ (mem_set_of_ne hk hki)
+
+/-- **whatever goroutines younger than `b` do — any number of micro-steps, in any order, interleaved in any way — the contexts of
+`b` keep their state and every `Load` through them answers as before** -/
+theorem younger_invisible {p : Prog} : ∀ (is : List Nat) {c : Cfg} {gh : Ghost}, ReachG p c gh → c ≠ Cfg.init p →
+    ∀ {b : Gid} {j : CtxId}, CtxOf c b j → YoungerOnly b is c → ∀ n : String,
+    (Cfg.steps is c).w.ctxs j = c.w.ctxs j ∧
+    loadEntry (Cfg.steps is c).w.defs (c.w.ctxs j).loader n = loadEntry c.w.defs (c.w.ctxs j).loader n := by
+  intro is
+  induction is with
+  | nil => intro c gh _ _ b j _ _ n; exact ⟨rfl, rfl⟩
+  | cons i is ih =>
+    intro c gh h hn b j hj hy n
+    rcases reachG_inv h with ⟨h0, _⟩ | ⟨hc, hg⟩
+    · exact absurd h0 hn
+    · have hstep : (c.step i).w.ctxs j = c.w.ctxs j ∧
+          loadEntry (c.step i).w.defs (c.w.ctxs j).loader n = loadEntry c.w.defs (c.w.ctxs j).loader n := by
+        cases hi : c.gs[i]? with
+        | none => have : c.step i = c := by simp [Cfg.step, hi]
+                  rw [this]; exact ⟨rfl, rfl⟩
+        | some g => exact loads_isolated hc hg hi hj (not_anc_of_lt hg (hy.1 g hi)) n
+      have hn' : c.step i ≠ Cfg.init p := by
+        intro he
+        have hc' := cinv_step hc i
+        rw [he] at hc'
+        have := (hc'.gok _ (List.mem_singleton.2 rfl)).st rfl
+        simp [Cfg.init, StackOK, tlGet] at this
+      obtain ⟨r1, r2⟩ := ih (ReachG.step i h) hn' (ctxOf_step hc hj hy.1) hy.2 n
+      show (Cfg.steps is (c.step i)).w.ctxs j = _ ∧ loadEntry (Cfg.steps is (c.step i)).w.defs _ n = _
+      rw [hstep.1] at r1 r2
+      exact ⟨r1, r2.trans hstep.2⟩
+
 end Pcore.Tls
